@@ -36,6 +36,43 @@ def isPartition (whole : MeshFields) (pieces : List MeshFields) : Bool :=
   pieces.all (fun p => p.pointContent.all fun it => whole.pointContent.contains it) &&
   whole.pointContent.all fun it => pieces.any fun p => p.pointContent.contains it
 
+/-! ### content by field *name* (independent of the order in which fields are stored)
+
+  `pointContent` / `cellContent` of FcModel/Mesh.lean list the field values of an item in storage
+  order.  The merged cell-field order comes from a Python `set`; the theorems therefore use the
+  following name-indexed variants (for canonically stored fields both notions coincide; the driver
+  evaluates both on every case). -/
+
+/-- value row of cell field `name` on the cells of type `ct` at cell `c` (`[]` if there is none) -/
+def cellValue (f : MeshFields) (name ct : String) (c : Nat) : List Int :=
+  match findCellField f.cellFields name ct with
+  | some cf => cf.values.row c
+  | none => []
+
+/-- the cells of type `ct` as geometric items: corner coordinates and the values of the fields `names` -/
+def cellItemsOf (f : MeshFields) (names : List String) (ct : String) : List CellItem :=
+  (List.range (f.mesh.cellsOf ct).length).map fun c =>
+    ⟨ct, ((f.mesh.cellsOf ct).getD c []).map (f.mesh.points.getD · []),
+     names.map fun n => (n, cellValue f n ct c)⟩
+
+def pointValue (f : MeshFields) (name : String) (p : Nat) : List Int :=
+  match f.pointFields.find? (·.name == name) with
+  | some pf => pf.values.row p
+  | none => []
+
+def pointItemBy (f : MeshFields) (names : List String) (p : Nat) : PointItem :=
+  ⟨f.mesh.points.getD p [], names.map fun n => (n, pointValue f n p)⟩
+
+/-- all points (connected or not) as geometric items -/
+def pointItemsOf (f : MeshFields) (names : List String) : List PointItem :=
+  (List.range f.mesh.points.length).map (pointItemBy f names)
+
+/-- name-indexed verdict: per cell type the same cells (with multiplicity), the same points -/
+def readsAsWholeBy (cnames pnames : List String) (merged whole : MeshFields) : Bool :=
+  (dedupNames (merged.mesh.cellTypes ++ whole.mesh.cellTypes)).all (fun ct =>
+    (cellItemsOf merged cnames ct).isPerm (cellItemsOf whole cnames ct)) &&
+  (pointItemsOf merged pnames).isPerm (pointItemsOf whole pnames)
+
 /-- conforming: no two points of the data set coincide -/
 def conforming (f : MeshFields) : Bool := nodupPoints f.mesh.points
 
